@@ -45,6 +45,7 @@ func (c *consumer) Close() (err error) {
 
 		// block until the offset is 0 (so we don't have uncommitted changes)
 		for c.offset != 0 {
+			verifHook("consumer.close.wait")
 			c.cond.Wait()
 		}
 	})
@@ -91,6 +92,7 @@ func (c *consumer) Get(ctx context.Context) (interface{}, error) {
 	}
 
 	// it was async
+	verifHook("consumer.get.async")
 	result := <-out
 	if result.Error != nil {
 		return nil, result.Error
